@@ -106,7 +106,7 @@ def run(tier, replay=None):
                         key = ['C13', clause, e['when'], e['digest'] == e['ref']]
                         what = 'probe battery digest %s differs from the pristine-process digest %s (%s of a process that ran %d pairs)' % (e['digest'], e['ref'], e['when'], len(part))
                     else:
-                        key = ['C13', clause, e['ta'], e['ha'], e['tb'], e['hb'], e['sched'], e['k'], e['obs'], e['solo']]
+                        key = ['C13', clause, e['ta'], e['ha'], e['tb'], e['hb'], e['sched'], e['k'], e['obs'], e['solo'], bool(e.get('late'))]
                         what = '%s: %s %s || %s %s, schedule %s, step %d by instance %d observed %s, alone %s' % (
                             clause, e['ta'], json.dumps(e['ha']), e['tb'], json.dumps(e['hb']), e['sched'], e['k'], e['inst'], e['obs'], e['solo'])
                     divs.append(dict(key=key, cls='%s:%s:%s' % (clause, e['ta'], e['tb']), what=what, replay=dict(event=e)))
